@@ -738,12 +738,30 @@ class CreateSyntaxErrorViolation:
 
 # ====================================================================================== linter
 IgnoreParserT = Opaque("IgnoreDirectiveParser")
-RuleT = Rec("NestingDepthRule", cls=LI + "NestingDepthRule", _ignore_parser=IgnoreParserT, _violation_builder=BuilderT,
+RuleT = Rec("NestingDepthRule", cls=LI + "NestingDepthRule", pycls="src.linters.nesting.linter:NestingDepthRule",
+            _ignore_parser=IgnoreParserT, _violation_builder=BuilderT,
             _python_analyzer=PyAnalyzerT, _typescript_analyzer=TsAnalyzerT, _rust_analyzer=RsAnalyzerT)
+
+
+def _native_rule(obj):
+    """Native rendering of a rule object built from a model/witness: the real ignore parser is plugged in."""
+    from src.linter_config.ignore import get_ignore_parser
+    object.__setattr__(obj, "_ignore_parser", get_ignore_parser())
+    return obj
+
+
+RuleT.native_post = _native_rule
 
 # inline suppression directives are property C04's subject: for C01 an uninterpreted predicate of the violation's
 # (rule id, line) and the file content
-nesting_inline_ignored = uf("nesting_inline_ignored", [Str, Int, Str], Bool)
+def _native_inline_ignored(rule_id, line, content):
+    from src.core.types import Severity, Violation
+    from src.linter_config.ignore import get_ignore_parser
+    v = Violation(rule_id=rule_id, file_path="", line=line, column=0, message="", severity=Severity.ERROR)
+    return bool(get_ignore_parser().should_ignore_violation(v, content))
+
+
+nesting_inline_ignored = uf("nesting_inline_ignored", [Str, Int, Str], Bool, concrete=_native_inline_ignored)
 
 
 def content_of(context):
@@ -808,6 +826,17 @@ class ProcessPythonFunctions:
         # property text (expected to fail with the analyzer: known finding C01-python-depth-offset-verdict)
         return result == py_verdicts_doc(functions, config.max_nesting_depth, RULE_ID, context)
 
+    def witness_code_verdicts():
+        # one function whose analyzer depth (1) EQUALS the limit (1): must not be reported (strict >)
+        return {"self": {"_violation_builder": {"rule_id": RULE_ID}, "_python_analyzer": {}, "_typescript_analyzer": {},
+                         "_rust_analyzer": {}},
+                "functions": [{"__node__": "f", "kind_": "FunctionDef", "name": "f", "lineno": 1, "col_offset": 0,
+                               "decorator_list": [],
+                               "body": [{"__node__": "i", "kind_": "If", "lineno": 2, "col_offset": 4, "orelse": [],
+                                         "body": [{"__node__": "p", "kind_": "Pass", "lineno": 3, "col_offset": 8}]}]}],
+                "analyzer": {}, "config": {"max_nesting_depth": 1, "enabled": True},
+                "context": {"file_path": None, "file_content": "def f(x):\n    if x:\n        pass\n", "language": "python"}}
+
     def ensures_code_verdicts(self, functions, analyzer, config, context, result):
         # finding-adjusted: the same decision procedure (strict >, one violation per function, header line, depth in the
         # message) on the depth the Python analyzer computes
@@ -849,6 +878,19 @@ class ProcessTypescriptFunctions:
     def requires(self, functions, analyzer, config, context):
         return config.max_nesting_depth >= 1 and self._violation_builder.rule_id == RULE_ID and fn_nodes_ok(functions)
 
+    def witness_documented_verdicts():
+        # function f() { if (x) {} }: depth 2 EQUALS the limit 2: must not be reported (strict >)
+        return {"self": {"_violation_builder": {"rule_id": RULE_ID}, "_python_analyzer": {}, "_typescript_analyzer": {},
+                         "_rust_analyzer": {}},
+                "functions": [[{"__node__": "f", "type": "function_declaration", "start_point": [0, 0], "end_point": [2, 1], "text": None, "children": [
+                    {"__node__": "b", "type": "statement_block", "start_point": [0, 13], "end_point": [2, 1], "text": None, "children": [
+                        {"__node__": "i", "type": "if_statement", "start_point": [1, 2], "end_point": [1, 10], "text": None,
+                         "children": [{"__node__": "k", "type": "if", "start_point": [1, 2], "end_point": [1, 4],
+                                       "text": None, "children": []}]}]}]}, "f"]],
+                "analyzer": {"tree_sitter_available": True, "function_extractor": {}},
+                "config": {"max_nesting_depth": 2, "enabled": True},
+                "context": {"file_path": None, "file_content": "function f() {\n  if (x) {}\n}\n", "language": "typescript"}}
+
     def ensures_documented_verdicts(self, functions, analyzer, config, context, result):
         # property text: reported iff the documented depth exceeds max_nesting_depth; one violation per function; the
         # message states the depth; line = header line
@@ -884,6 +926,18 @@ def rs_verdicts(funcs: SeqOf(FuncInfoT), limit: Int, rule_id: Str, context: CtxT
 class ProcessRustFunctions:
     def requires(self, functions, config, context):
         return config.max_nesting_depth >= 1 and self._violation_builder.rule_id == RULE_ID and fn_nodes_ok(functions)
+
+    def witness_code_verdicts():
+        # fn f() { if x {} }: depth 2 EQUALS the limit 2: must not be reported (strict >)
+        return {"self": {"_violation_builder": {"rule_id": RULE_ID}, "_python_analyzer": {}, "_typescript_analyzer": {},
+                         "_rust_analyzer": {"tree_sitter_available": True}},
+                "functions": [[{"__node__": "f", "type": "function_item", "start_point": [0, 0], "end_point": [2, 1], "text": None, "children": [
+                    {"__node__": "b", "type": "block", "start_point": [0, 13], "end_point": [2, 1], "text": None, "children": [
+                        {"__node__": "i", "type": "if_expression", "start_point": [1, 2], "end_point": [1, 10], "text": None,
+                         "children": [{"__node__": "k", "type": "if", "start_point": [1, 2], "end_point": [1, 4],
+                                       "text": None, "children": []}]}]}]}, "f"]],
+                "config": {"max_nesting_depth": 2, "enabled": True},
+                "context": {"file_path": None, "file_content": "fn f() {\n  if x {}\n}\n", "language": "rust"}}
 
     def ensures_code_verdicts(self, functions, config, context, result):
         # the documented decision procedure over the constructs the analyzer counts (async blocks: see
